@@ -168,7 +168,7 @@ def check_case(acc, pendulum, zname, inst, kw, variants=True):
 def run_shard(shard):
     import pendulum
     acc = core.Acc(ID)
-    amounts = _amounts(shard.get("thorough", False))
+    amounts = _amounts(shard.get("full_alphabet", False))
     if shard.get("kind") == "chains":
         from .. import chain
         for sd in shard["seeds"]:
@@ -217,7 +217,11 @@ def plan(tier, seed):
     thorough = tier == "thorough"
     zones = list(seeds.all_zones()) + list(seeds.WITNESS_FIXED) + [None]
     shards = [{"zones": ch, "thorough": thorough, "limit": 0 if thorough else 10, "seed": seed}
-              for ch in seeds.chunks(zones, 64)]
+              for ch in seeds.chunks(zones, 64 if not thorough else 256)]
+    if thorough:
+        # the full product alphabet (hours x minutes x seconds x microseconds) on the witness zones
+        shards += [{"zones": [z], "thorough": True, "full_alphabet": True, "limit": 12, "seed": seed}
+                   for z in seeds.witness_zones(seed, 2)]
     from .. import chain
     cs = chain.chain_seeds(seed, 3 if not thorough else 8)
     shards += [{"kind": "chains", "seeds": ch, "depth": 3} for ch in seeds.chunks(cs, 32)]
@@ -238,7 +242,8 @@ def evidence(m, tier, seed):
                 "offsets and naive values; every state x every amount of the carry-critical alphabet; non-trivial "
                 "= states adjacent to an offset transition",
         "exhaustive": True,
-        "amount_alphabet_size": len(_amounts(tier == "thorough")),
+        "amount_alphabet_size": len(_amounts(False)),
+        "full_product_alphabet_size_on_witness_zones": len(_amounts(True)) if tier == "thorough" else 0,
         "skipped_out_of_range": c["skipped_out_of_range"],
         "seed_not_canonical": c["seed_not_canonical"],
     }, "assumptions": ["reference TZif reader (validated against zoneinfo by ./check setup)"]}
